@@ -114,6 +114,11 @@ func (c *TableWriter) WriteRun(entries iter.Seq[kv.Entry], targetSize uint64) ([
 		for buffer.size < int(targetSize) {
 			entry, ok := next()
 			if !ok {
+				// Everything was already flushed in the previous chunk. Don't write a
+				// table without entries: it has no key range to be ordered by.
+				if len(buffer.entries) == 0 && len(tables) > 0 {
+					return tables, nil
+				}
 				t, err := c.Write(buffer.all())
 				if err != nil {
 					return nil, err
